@@ -30,6 +30,9 @@ ASSUMPTIONS = [
 ]
 
 FAMILY = [
+    # loop constants in the goal next to a guard over two variables (goal x guard expands into coefficient * product monomials)
+    "c = 1\nd = 0\ny = 2\nz = 3\nwhile c == 1 && d == 0:\n    z = y\n    c, d = d, c\nend\n",
+    "c = 1\nd = 0\nk = 3\nx = 0\nwhile c == 1 && d == 0:\n    c = Bernoulli(1/2)\n    d = Bernoulli(1/4)\n    x = x + k\nend\n",
     "c = 1\nx = 0\nwhile c == 1:\n    c = Bernoulli(1/2)\n    x = x + 1\nend\n",
     "c = 1\nx = 0\ny = 1\nwhile c == 1:\n    c = Bernoulli(1/3)\n    x = x + y\n    y = y + 1\nend\n",
     # guard + single top-level if (the collapse shortcut)
